@@ -90,8 +90,34 @@ func (h *gmeHarness) liveSet(up bool) {
 	}
 }
 
+// vRecME wraps the MultiEndpoint "main" of the livemon scenario: it records, for the live pool's endpoint, every
+// availability report together with the pool's connectivity at the moment of the report.
+type vRecME struct {
+	multiendpoint.MultiEndpoint
+	conn  *grpc.ClientConn
+	mu    sync.Mutex
+	stale int // reports that said the opposite of the pool's state at that moment
+	total int
+}
+
+func (r *vRecME) SetEndpointAvailability(e string, avail bool) {
+	if e == "live1" {
+		ready := r.conn.GetState() == connectivity.Ready
+		r.mu.Lock()
+		r.total++
+		if ready != avail {
+			r.stale++
+		}
+		r.mu.Unlock()
+	}
+	r.MultiEndpoint.SetEndpointAvailability(e, avail)
+}
+
 // liveMon: see the header. Returns the operation line (with the final connectivity the harness read) and the observation.
 func (h *gmeHarness) liveMon(flips int) (line, obs string) {
+	if flips == 99 {
+		return h.liveMonPark()
+	}
 	line = fmt.Sprintf("gme livemon flips=%d final=?", flips)
 	defer func() {
 		if r := recover(); r != nil {
@@ -136,10 +162,15 @@ func (h *gmeHarness) liveMon(flips int) (line, obs string) {
 		h.digestAfterClose()
 	}()
 	conn := g.pools["live1"].conn
+	rec := &vRecME{conn: conn}
+	g.mu.Lock()
+	rec.MultiEndpoint = g.mes["main"]
+	g.mes["main"] = rec
+	g.mu.Unlock()
 	told := func() string {
 		g.mu.RLock()
 		defer g.mu.RUnlock()
-		for _, l := range multiendpoint.VerifDump(g.mes["main"]) {
+		for _, l := range multiendpoint.VerifDump(rec.MultiEndpoint) {
 			if strings.HasPrefix(l, "live1/") {
 				return l[len(l)-1:]
 			}
@@ -208,7 +239,240 @@ func (h *gmeHarness) liveMon(flips int) (line, obs string) {
 	if quiet < 5 || (conn.GetState() == connectivity.Ready) != up {
 		return line, "no-connectivity"
 	}
-	return fmt.Sprintf("gme livemon flips=%d final=%s", flips, final), "told=" + told()
+	rec.mu.Lock()
+	stale, total := rec.stale, rec.total
+	rec.mu.Unlock()
+	return fmt.Sprintf("gme livemon flips=%d final=%s", flips, final), fmt.Sprintf("told=%s stale=%d reports=%d", told(), stale, total)
+}
+
+// liveMonPark (`gme livemon flips=99`, printed as `gme livemon park=1 final=…`): the monitor of the live pool is stopped
+// between notify and WaitForStateChange when it has just told the MultiEndpoints READY; the pool loses connectivity, an
+// update reports the pools' states, the pool regains connectivity; the monitor continues, finds the state it reported
+// and sleeps. Once everything is quiet the MultiEndpoint must believe the pool's current state (READY).
+func (h *gmeHarness) liveMonPark() (line, obs string) {
+	line = "gme livemon park=1 final=?"
+	defer func() {
+		if r := recover(); r != nil {
+			obs = "PANIC"
+		}
+	}()
+	if !verifMonitorHookInstalled {
+		return line, "no-hook"
+	}
+	if h.gme != nil {
+		h.gme.Close()
+		h.gme = nil
+	}
+	h.conns, h.dials, h.fail = map[string][]*grpc.ClientConn{}, map[string]int{}, map[string]bool{}
+	lis := bufconn.Listen(1 << 16)
+	srv := grpc.NewServer()
+	go srv.Serve(lis)
+	defer srv.Stop()
+	h.liveMu.Lock()
+	h.liveLis, h.liveUp, h.liveConns = lis, true, nil
+	h.liveMu.Unlock()
+	h.slowEntered, h.slowRelease = make(chan struct{}), make(chan struct{})
+	close(h.slowRelease) // no slow dial in this scenario
+	mk := func(extra bool) *GCPMultiEndpointOptions {
+		o := &GCPMultiEndpointOptions{GRPCgcpConfig: h.apiCfg, Default: "main", DialFunc: h.dial,
+			MultiEndpoints: map[string]*multiendpoint.MultiEndpointOptions{"main": {Endpoints: []string{"live1", "e2"}}}}
+		if extra {
+			o.MultiEndpoints["other"] = &multiendpoint.MultiEndpointOptions{Endpoints: []string{"e2"}}
+		}
+		return o
+	}
+	g, err := NewGCPMultiEndpoint(mk(false))
+	if err != nil {
+		return line, "err"
+	}
+	h.gme = g
+	var rel chan struct{}
+	defer func() {
+		verifMonArmed.Store("")
+		if rel != nil {
+			close(rel)
+		}
+		g.Close()
+		h.gme = nil
+		h.digestAfterClose()
+	}()
+	conn := g.pools["live1"].conn
+	told := func() string {
+		g.mu.RLock()
+		defer g.mu.RUnlock()
+		for _, l := range multiendpoint.VerifDump(g.mes["main"]) {
+			if strings.HasPrefix(l, "live1/") {
+				return l[len(l)-1:]
+			}
+		}
+		return "?"
+	}
+	waitState := func(ready bool) bool {
+		for i := 0; i < 1000; i++ {
+			if (conn.GetState() == connectivity.Ready) == ready {
+				return true
+			}
+			if ready {
+				conn.ResetConnectBackoff()
+			}
+			time.Sleep(5 * time.Millisecond)
+		}
+		return false
+	}
+	waitTold := func(want string) bool {
+		for i := 0; i < 400 && told() != want; i++ {
+			time.Sleep(5 * time.Millisecond)
+		}
+		return told() == want
+	}
+	if !waitState(true) || !waitTold("A") {
+		return line, "no-connectivity"
+	}
+	// the monitor sleeps in WaitForStateChange(READY). Down: it wakes and reports the not-READY states it sees.
+	h.liveSet(false)
+	if !waitState(false) || !waitTold("U") {
+		return line, "no-connectivity"
+	}
+	// Arm the hook and bring the pool up: the monitor reports READY and stops in front of WaitForStateChange(READY)
+	verifMonArmed.Store("live1")
+	h.liveSet(true)
+	if !waitState(true) {
+		return line, "no-connectivity"
+	}
+	select {
+	case rel = <-verifMonParked:
+	case <-time.After(5 * time.Second):
+		return line, "monitor-not-parked"
+	}
+	if told() != "A" {
+		return line, "no-connectivity"
+	}
+	// connectivity is lost …
+	h.liveSet(false)
+	if !waitState(false) {
+		return line, "no-connectivity"
+	}
+	// … an update reports the pools' states …
+	if err := g.UpdateMultiEndpoints(mk(true)); err != nil {
+		return line, "err"
+	}
+	// … and connectivity comes back
+	h.liveSet(true)
+	if !waitState(true) {
+		return line, "no-connectivity"
+	}
+	close(rel) // the monitor goes on: WaitForStateChange(READY) on a READY connection
+	rel = nil
+	quiet := 0
+	for i := 0; i < 1000 && quiet < 5; i++ {
+		if conn.GetState() == connectivity.Ready && gmeMonitorsBlocked() {
+			quiet++
+		} else {
+			quiet = 0
+		}
+		time.Sleep(5 * time.Millisecond)
+	}
+	if quiet < 5 || conn.GetState() != connectivity.Ready {
+		return line, "no-connectivity"
+	}
+	return "gme livemon park=1 final=READY", "told=" + told() + " stale=0 reports=0"
+}
+
+// liveOrder (`gme liveorder`): three pools with real connectivity, all READY and known to be READY. Three updates each
+// add a MultiEndpoint with a switching delay (one hour: it does not run out) over these kept pools, with the
+// priority orders 2-3-1, 3-1-2 and 1-2-3. Each must route to its first endpoint when the update returns.
+//   => cur=<current of new1>,<of new2>,<of new3>
+func (h *gmeHarness) liveOrder() (line, obs string) {
+	line = "gme liveorder final=?"
+	defer func() {
+		if r := recover(); r != nil {
+			obs = "PANIC"
+		}
+	}()
+	if h.gme != nil {
+		h.gme.Close()
+		h.gme = nil
+	}
+	h.conns, h.dials, h.fail = map[string][]*grpc.ClientConn{}, map[string]int{}, map[string]bool{}
+	lis := bufconn.Listen(1 << 16)
+	srv := grpc.NewServer()
+	go srv.Serve(lis)
+	defer srv.Stop()
+	h.liveMu.Lock()
+	h.liveLis, h.liveUp, h.liveConns = lis, true, nil
+	h.liveMu.Unlock()
+	h.slowEntered, h.slowRelease = make(chan struct{}), make(chan struct{})
+	close(h.slowRelease)
+	lives := []string{"live1", "live2", "live3"}
+	o := &GCPMultiEndpointOptions{GRPCgcpConfig: h.apiCfg, Default: "main", DialFunc: h.dial,
+		MultiEndpoints: map[string]*multiendpoint.MultiEndpointOptions{"main": {Endpoints: []string{"live1"}}}}
+	g, err := NewGCPMultiEndpoint(o)
+	if err != nil {
+		return line, "err"
+	}
+	h.gme = g
+	defer func() {
+		g.Close()
+		h.gme = nil
+		h.digestAfterClose()
+	}()
+	// every live pool READY, and every MultiEndpoint that lists it told so
+	settled := func() bool {
+		g.mu.RLock()
+		defer g.mu.RUnlock()
+		for _, e := range lives {
+			mc := g.pools[e]
+			if mc == nil {
+				continue
+			}
+			if mc.conn.GetState() != connectivity.Ready {
+				mc.conn.ResetConnectBackoff()
+				return false
+			}
+		}
+		for _, me := range g.mes {
+			for _, l := range multiendpoint.VerifDump(me) {
+				if strings.HasPrefix(l, "live") && !strings.HasSuffix(l, "A") {
+					return false
+				}
+			}
+		}
+		return true
+	}
+	wait := func() bool {
+		for i := 0; i < 1000; i++ {
+			if settled() && gmeMonitorsBlocked() {
+				return true
+			}
+			time.Sleep(5 * time.Millisecond)
+		}
+		return false
+	}
+	if !wait() {
+		return line, "no-connectivity"
+	}
+	o.MultiEndpoints["warm"] = &multiendpoint.MultiEndpointOptions{Endpoints: lives}
+	if err := g.UpdateMultiEndpoints(o); err != nil {
+		return line, "err"
+	}
+	if !wait() {
+		return line, "no-connectivity"
+	}
+	curs := []string{}
+	for i, order := range [][]string{{"live2", "live3", "live1"}, {"live3", "live1", "live2"}, {"live1", "live2", "live3"}} {
+		name := fmt.Sprintf("new%d", i+1)
+		o.MultiEndpoints[name] = &multiendpoint.MultiEndpointOptions{Endpoints: order, SwitchingDelay: time.Hour}
+		if err := g.UpdateMultiEndpoints(o); err != nil {
+			return line, "err"
+		}
+		g.mu.RLock()
+		curs = append(curs, g.mes[name].Current())
+		g.mu.RUnlock()
+		if !wait() {
+			return line, "no-connectivity"
+		}
+	}
+	return "gme liveorder final=ok", "cur=" + strings.Join(curs, ",")
 }
 
 func (h *gmeHarness) dial(ctx context.Context, target string, opts ...grpc.DialOption) (*grpc.ClientConn, error) {
@@ -351,7 +615,13 @@ func (h *gmeHarness) exec(line string) (out string) {
 	switch toks[1] {
 	case "livemon":
 		k, _ := strconv.Atoi(a["flips"])
+		if a["park"] == "1" {
+			k = 99
+		}
 		l, o := h.liveMon(k)
+		return "@" + l + " => " + o
+	case "liveorder":
+		l, o := h.liveOrder()
 		return "@" + l + " => " + o
 	case "new", "upd":
 		h.fail = map[string]bool{}
@@ -447,7 +717,7 @@ func (h *gmeHarness) exec(line string) (out string) {
 			st = connectivity.Ready
 		}
 		l := h.removed[a["e"]]
-		l[len(l)-1].notify(st)
+		verifDeliver(l[len(l)-1], st)
 		return "ok ; " + h.digest()
 	case "pstate":
 		if h.gme == nil {
@@ -463,7 +733,7 @@ func (h *gmeHarness) exec(line string) (out string) {
 		if a["ready"] == "1" {
 			st = connectivity.Ready
 		}
-		mc.notify(st)
+		verifDeliver(mc, st)
 		return "ok ; " + h.digest()
 	case "rpc":
 		if h.gme == nil {
@@ -605,6 +875,12 @@ func TestVerifGME(t *testing.T) {
 	for ep := 0; ep < episodes; ep++ {
 		if ep%40 == 1 { // a pool with real connectivity and the real monitor goroutine
 			emit(fmt.Sprintf("gme livemon flips=%d", 1+(ep/40)%4))
+		}
+		if ep%80 == 21 { // … and its monitor stopped between notify and WaitForStateChange while an update runs
+			emit("gme livemon park=1")
+		}
+		if ep%80 == 61 { // … and MultiEndpoints with a switching delay added over READY pools
+			emit("gme liveorder")
 		}
 		d, o, fl := genOpts()
 		obs := emit(fmt.Sprintf("gme new default=%s opts=%s fail=%s", d, o, fl))
